@@ -32,7 +32,8 @@ package performance
 //     perf = 1                                  if nothing changed and nothing flowed
 //     perf = 1                                  if start value + inflow = 0 and end value - outflow = 0 (only flows on an empty base)
 //     perf = (v1 - outflow) / (v0 + inflow)     otherwise
-// Ghosts s0, s1, fin, fout are the sums the four loops compute (running sums over the maps).
+// Ghosts s0, s1, fin, fout are the sums the four loops compute (running sums over the maps); only EXTERNAL
+// flows enter: the portfolio-level effects of `@performance()` transactions are part of v1, not flows.
 //@ def perfOf(v0 float64, v1 float64, inflow float64, outflow float64) float64 := (v0 == v1 && inflow == 0.0 && outflow == 0.0) ? 1.0
 //@     : ((v0 + inflow == 0.0 && v1 - outflow == 0.0) ? 1.0 : (v1 - outflow) / (v0 + inflow))
 //@ func Performance
@@ -40,18 +41,18 @@ package performance
 //@   modifies nothing
 //@   ghost s0 real = 0.0
 //@   ghost s1 real = 0.0
-//@   ghost fin real = dpv.PortfolioInflow
-//@   ghost fout real = dpv.PortfolioOutflow
+//@   ghost fin real = 0.0
+//@   ghost fout real = 0.0
 //@   loop 1 ghost-end s0 := v0
 //@   loop 2 ghost-end s1 := v1
 //@   loop 3 ghost-end fin := inflow
 //@   loop 4 ghost-end fout := outflow
 //@   ensures [C20] @formula: result == perfOf(s0, s1, fin, fout)
-//@   ensures [C20] @noflows: len(dpv.Inflow) == 0 && len(dpv.Outflow) == 0 && dpv.PortfolioInflow == 0.0 && dpv.PortfolioOutflow == 0.0 && s0 != s1 ==> result == s1 / s0
-//@   loop 1 invariant s0 == v0 && s1 == 0.0 && fin == dpv.PortfolioInflow && fout == dpv.PortfolioOutflow
-//@   loop 2 invariant s0 == v0 && s1 == v1 && fin == dpv.PortfolioInflow && fout == dpv.PortfolioOutflow
-//@   loop 3 invariant s0 == v0 && s1 == v1 && fin == inflow && fout == dpv.PortfolioOutflow && (len(dpv.Inflow) == 0 ==> inflow == dpv.PortfolioInflow)
-//@   loop 4 invariant s0 == v0 && s1 == v1 && fin == inflow && fout == outflow && (len(dpv.Outflow) == 0 ==> outflow == dpv.PortfolioOutflow) && (len(dpv.Inflow) == 0 ==> inflow == dpv.PortfolioInflow)
+//@   ensures [C20] @noflows: len(dpv.Inflow) == 0 && len(dpv.Outflow) == 0 && s0 != s1 ==> result == s1 / s0
+//@   loop 1 invariant s0 == v0 && s1 == 0.0 && fin == 0.0 && fout == 0.0
+//@   loop 2 invariant s0 == v0 && s1 == v1 && fin == 0.0 && fout == 0.0
+//@   loop 3 invariant s0 == v0 && s1 == v1 && fin == inflow && fout == 0.0 && (len(dpv.Inflow) == 0 ==> inflow == 0.0)
+//@   loop 4 invariant s0 == v0 && s1 == v1 && fin == inflow && fout == outflow && (len(dpv.Outflow) == 0 ==> outflow == 0.0) && (len(dpv.Inflow) == 0 ==> inflow == 0.0)
 //
 // The factor is 1 (a return of 0%) when prices are unchanged and the value only changed by external
 // deposits and withdrawals (v1 = v0 + inflow + outflow), and end value over start value without flows.
@@ -93,6 +94,10 @@ package performance
 //@   modifies portfolioFlows, performance
 //@   ensures [C20] @reset: result == nil && portfolioFlows == 0.0 && performance != nil && (d.Performance != nil ==> performance == d.Performance) && (d.Performance == nil ==> fresh(performance))
 //
+// ComputeFlows, per transaction, is NOT under contract: it hands the addresses of the record's map fields
+// (&performance.Inflow, ...) to a helper, which the engine's memory model does not support (no first-class
+// pointers to struct fields holding maps). A reported defect there - `--commodity` filters the values but not
+// the flows - is therefore not decided by this machinery (DESIGN 11.8).
 //@ func (*Calculator).ComputeFlows$3
 //@   requires d != nil && performance != nil
 //@   modifies performance.PortfolioInflow, performance.PortfolioOutflow, d.Performance
